@@ -70,9 +70,9 @@ def auth_messages(prog, I, st):
             pls = [('', cl.record(prog, 'Challenge', 'out/auth.rs', challenge=I.fresh_int('msg_srv_challenge', 'u32', st)))]
         elif v == 'ClientChallenge':
             pls = [('/len%d' % n, cl.record(prog, 'ChallengeReply', 'out/auth.rs', challenge=I.fresh_int('msg_reply_challenge', 'u32', st),
-                                            digest=Agg('Vec', cl.sym_bytes(I, st, 'msg_reply_digest', n)))) for n in DIGEST_LENS]
+                                            digest=Agg('Vec', cl.sym_bytes(I, st, 'msg_reply_digest%d' % n, n)))) for n in DIGEST_LENS]
         elif v == 'ServerAck':
-            pls = [('/len%d' % n, cl.record(prog, 'ChallengeAck', 'out/auth.rs', digest=Agg('Vec', cl.sym_bytes(I, st, 'msg_ack_digest', n)))) for n in DIGEST_LENS]
+            pls = [('/len%d' % n, cl.record(prog, 'ChallengeAck', 'out/auth.rs', digest=Agg('Vec', cl.sym_bytes(I, st, 'msg_ack_digest%d' % n, n)))) for n in DIGEST_LENS]
         else:
             raise Inconclusive('authentication_message::Msg has an unknown variant %s: extend the check' % v)
         for suffix, pl in pls:
